@@ -358,7 +358,7 @@ def effects(F, path, depth=0, seen=None):
     return out
 
 
-def r7(ck, F):
+def r7(ck, F, rid="C04.R7"):
     """Sibling agreement: tracing-core has two implementations of the registry (with a lock and dispatcher list under std,
     a single global dispatcher without). What a collector / callsite gets told by `register`, `register_dispatch` and
     `rebuild_interest_cache` must not depend on which one was compiled."""
@@ -368,11 +368,11 @@ def r7(ck, F):
         p = "tracing_core::callsite::inner::" + fn
         a, b = F.body(p), N.body(p)
         key = "callsite::%s: std and no_std variants make the same collector/callsite-facing calls" % fn
-        if not (ck.anchor("C04.R7", p + " (std)", a) and ck.anchor("C04.R7", p + " (no_std)", b)):
+        if not (ck.anchor(rid, p + " (std)", a) and ck.anchor(rid, p + " (no_std)", b)):
             continue
         ea, eb = effects(F, p), effects(N, p)
         # the dispatcher list only exists under std: upgrading weak registrars has no no_std counterpart
         if ea == eb:
-            ck.ok("C04.R7", key, detail=sorted(ea))
+            ck.ok(rid, key, detail=sorted(ea))
         else:
-            ck.bad("C04.R7", key, where(a.raw["sp"]), "only with std: %s; only without std: %s" % (sorted(ea - eb), sorted(eb - ea)), fn=p)
+            ck.bad(rid, key, where(a.raw["sp"]), "only with std: %s; only without std: %s" % (sorted(ea - eb), sorted(eb - ea)), fn=p)
